@@ -1,7 +1,8 @@
 (* The composition step of C20: every line the exception-trace renderer hands to io.write_line IS a line of literals and
    safe separators (LiteralLemmas' grammar); indentation keeps it one; hence writing it never fails, leaves the style
-   stack as it was, and shows the texts.  Then: render never fails, the exact condition under which render_lines itself
-   is Ok, and what the undecorated bytes say. *)
+   stack as it was, and shows the texts.  The lines themselves always exist (TraceLemmas.render_lines_total: the renderer
+   catches what reading / tokenizing a source raises).  Hence: render never fails - unconditionally on undecorated
+   outputs, for ESC-free inputs on decorated ones - and what the undecorated bytes say. *)
 From Coq Require Import Lia.
 From Clikit Require Import Base.Prelude Base.Res Model.Conv Model.Markup Model.OutputM Model.Trace
   Proofs.MarkupLemmas Proofs.OutputLemmas Proofs.TraceLemmas Proofs.LiteralLemmas.
@@ -231,7 +232,7 @@ Lemma good_code_snippet utf8 toks line before after :
 Proof. unfold code_snippet. apply Forall_firstn, Forall_skipn, good_line_numbers. Qed.
 Lemma good_snippet_of c content line before after ls :
   snippet_of c content line before after = Ok ls -> Forall (good_line sty) ls.
-Proof. unfold snippet_of. destruct content; intros H; try discriminate. injection H as <-. apply good_code_snippet. Qed.
+Proof. unfold snippet_of. destruct content; intros H; injection H as <-; [apply good_code_snippet|constructor|constructor]. Qed.
 
 (* the class-name line, the message line, the simple-mode line *)
 Definition name_pieces (x : exn_case) : list piece := [PNamed st_error (x_name x)].
@@ -465,20 +466,23 @@ Proof.
   intros Hl. unfold render_line. apply Forall_app. split; [destruct nl; constructor; [apply good_nil|constructor]|].
   constructor; [|constructor]. cbn [snd]. apply good_app; [apply good_raw, safe_repeat32|exact Hl].
 Qed.
+Lemma good_frame_text f : good_line sty (frame_text f).
+Proof.
+  unfold frame_text, plain_code. destruct (f_linetoks f) as [toks| |]; try apply good_styled.
+  pose proof (good_split_to_lines sty toks) as HG. destruct (split_to_lines toks) as [|l r]; [apply good_styled|].
+  inversion HG; subst. assumption.
+Qed.
 Lemma good_frame_code c ind w f ls : frame_code c ind w f = Ok ls -> Forall goodw ls.
 Proof.
-  unfold frame_code. destruct (t_debug c).
-  - destruct (snippet_of c (f_content f) (f_lineno f) 2 2) as [sn|e] eqn:E; cbn [bind]; [|discriminate]. intros H. injection H as <-.
+  destruct (t_debug c) eqn:ED.
+  - destruct (frame_code_debug c ind w f ED) as (sn & E & ->). intros H.
+    assert (ls = flat_map (fun l => render_line ind (rjust [32%N] w ++ l) false 1) sn) as -> by (injection H; intros; symmetry; assumption).
     apply Forall_flat_map. eapply Forall_impl; [|apply (good_snippet_of sty c _ _ _ _ _ E)].
     intros l Hl. apply good_render_line. apply good_app; [apply good_raw, safe_rjust; safe_by_compute|exact Hl].
-  - intros H.
-    assert (exists code, good_line sty code /\ ls = render_line ind (rjust [32%N] w ++ [32; 32]%N ++ code) false 0) as (code & Hc & ->).
-    { destruct (f_linetoks f) as [toks| |]; cbn [bind] in H; try discriminate.
-      - pose proof (good_split_to_lines sty toks) as HG. destruct (split_to_lines toks) as [|l r]; cbn [bind] in H; [discriminate|].
-        injection H as <-. inversion HG; subst. eexists. split; [eassumption|reflexivity].
-      - injection H as <-. eexists. split; [apply good_styled|reflexivity]. }
+  - rewrite (frame_code_verbose c ind w f ED). intros H.
+    assert (ls = render_line ind (rjust [32%N] w ++ [32; 32]%N ++ frame_text f) false 0) as -> by (injection H; intros; symmetry; assumption).
     apply good_render_line. apply good_app; [apply good_raw, safe_rjust; safe_by_compute|].
-    apply good_app; [apply good_raw; safe_by_compute|exact Hc].
+    apply good_app; [apply good_raw; safe_by_compute|apply good_frame_text].
 Qed.
 Lemma good_frames_lines c ind w : forall fs i ls i', frames_lines c ind w fs i = Ok (ls, i') -> Forall goodw ls.
 Proof.
@@ -790,7 +794,7 @@ Proof.
 Qed.
 
 (* ------------------------------------------------------------------ 4. render never fails *)
-(* once the lines exist, writing them cannot fail: the only way ExceptionTrace.render can raise is tokenize *)
+(* writing the lines cannot fail ... *)
 Theorem render_never_fails_l sty c simple o x ls :
   out_ok sty o -> resolvable sty st_error -> resolvable sty st_b ->
   render_lines c simple (o_indent o) x = Ok ls ->
@@ -814,121 +818,45 @@ Proof.
   rewrite HW. cbn [bind]. now rewrite (HB Hd).
 Qed.
 
-(* ---- when render_lines itself is Ok: exactly when tokenize did not fail where the renderer needs it ---- *)
+(* ... and the lines always exist (render_lines_total): the renderer catches what reading / tokenizing a source raises,
+   so nothing is asked of tokenize any more.  x, the exception case, is arbitrary: any frames, token streams or
+   failures of tokenize, in either report mode, at every verbosity. *)
+Definition dflt_frame : frame :=
+  {| f_file := []; f_ignored := false; f_lineno := 0; f_func := []; f_line := []; f_content := TokError; f_linetoks := TokError |}.
+Definition trace_printed (c : tcfg) (fs : list frame) : bool := t_verbose c && negb (zlen (kept_frames c fs) - 1 =? 0)%Z.
 Lemma bind_ok {X Y} (r : res X) (f : X -> res Y) : (exists y, bind r f = Ok y) <-> exists x, r = Ok x /\ exists y, f x = Ok y.
 Proof.
   split.
   - intros (y & H). destruct r as [x|e]; cbn [bind] in H; [|discriminate]. exists x. split; [reflexivity|]. exists y. exact H.
   - intros (x & -> & y & H). exists y. exact H.
 Qed.
-Definition dflt_frame : frame :=
-  {| f_file := []; f_ignored := false; f_lineno := 0; f_func := []; f_line := []; f_content := TokError; f_linetoks := TokError |}.
-Definition tok_ok (t : tokres) : Prop := exists toks, t = TokOk toks.
-(* the line(s) under a listed frame: at debug verbosity the file must tokenize; below it the frame's own line may
-   fail with TokenError (it is then shown unhighlighted) but not otherwise, and a token stream must yield a line *)
-Definition code_ok (c : tcfg) (f : frame) : Prop :=
-  if t_debug c then tok_ok (f_content f)
-  else match f_linetoks f with TokOk toks => split_to_lines toks <> [] | TokError => True | TokOtherExc => False end.
-Definition trace_printed (c : tcfg) (fs : list frame) : bool := t_verbose c && negb (zlen (kept_frames c fs) - 1 =? 0)%Z.
-Definition render_cond (c : tcfg) (x : exn_case) : Prop :=
-  x_frames x <> [] ->
-  tok_ok (f_content (last (x_frames x) dflt_frame)) /\
-  (trace_printed c (x_frames x) = true -> Forall (code_ok c) (trace_frames c (x_frames x))).
-
-Lemma snippet_of_ok c t line before after : (exists ls, snippet_of c t line before after = Ok ls) <-> tok_ok t.
-Proof.
-  unfold snippet_of, tok_ok. destruct t as [toks| |]; split.
-  - intros _. eexists. reflexivity.
-  - intros _. eexists. reflexivity.
-  - intros (ls & H). discriminate.
-  - intros (toks & H). discriminate.
-  - intros (ls & H). discriminate.
-  - intros (toks & H). discriminate.
-Qed.
-Lemma frame_code_ok c ind w f : (exists ls, frame_code c ind w f = Ok ls) <-> code_ok c f.
-Proof.
-  unfold frame_code, code_ok. destruct (t_debug c).
-  - rewrite bind_ok, <- (snippet_of_ok c (f_content f) (f_lineno f) 2 2). split.
-    + intros (ls & H & _). exists ls. exact H.
-    + intros (ls & H). exists ls. split; [exact H|]. eexists. reflexivity.
-  - rewrite bind_ok. destruct (f_linetoks f) as [toks| |].
-    + destruct (split_to_lines toks) as [|l r]; split.
-      * intros (x & H & _). discriminate.
-      * intros H. congruence.
-      * intros _. discriminate.
-      * intros _. eexists. split; [reflexivity|]. eexists. reflexivity.
-    + split; [intros _; exact I|]. intros _. eexists. split; [reflexivity|]. eexists. reflexivity.
-    + split; [intros (x & H & _); discriminate|intros []].
-Qed.
-Lemma frames_lines_ok c ind w : forall fs i, (exists r, frames_lines c ind w fs i = Ok r) <-> Forall (code_ok c) fs.
-Proof.
-  induction fs as [|f fs IH]; intros i; cbn [frames_lines].
-  - split; [intros _; constructor|intros _; eexists; reflexivity].
-  - rewrite bind_ok. split.
-    + intros (code & HC & HR). apply bind_ok in HR. destruct HR as (rest & HR & _).
-      constructor; [apply (frame_code_ok c ind w f); exists code; exact HC|apply (IH (i - 1)%Z); exists rest; exact HR].
-    + intros H. inversion H as [|? ? Hf Hfs]; subst. apply (frame_code_ok c ind w f) in Hf. destruct Hf as (code & HC).
-      apply (IH (i - 1)%Z) in Hfs. destruct Hfs as (rest & HR). exists code. split; [exact HC|]. rewrite HR. cbn [bind]. eexists. reflexivity.
-Qed.
-Lemma colls_lines_ok c ind w : forall cs i, (exists r, colls_lines c ind w cs i = Ok r) <-> Forall (code_ok c) (flat_map c_frames cs).
-Proof.
-  induction cs as [|cl cs IH]; intros i; cbn [colls_lines flat_map].
-  - split; [intros _; constructor|intros _; eexists; reflexivity].
-  - rewrite bind_ok, Forall_app. split.
-    + intros (fl & HF & HR). apply bind_ok in HR. destruct HR as (rest & HR & _).
-      split; [eapply frames_lines_ok; exists fl; exact HF|eapply IH; exists rest; exact HR].
-    + intros [H1 H2]. eapply frames_lines_ok in H1. destruct H1 as (fl & HF). exists fl. split; [exact HF|].
-      eapply IH in H2. destruct H2 as (rest & HR). rewrite HR. cbn [bind]. eexists. reflexivity.
-Qed.
-Lemma render_trace_ok c ind fs :
-  (exists r, render_trace c ind fs = Ok r) <-> (trace_printed c fs = true -> Forall (code_ok c) (trace_frames c fs)).
-Proof.
-  unfold render_trace, trace_printed, trace_frames. destruct (t_verbose c && negb (zlen (kept_frames c fs) - 1 =? 0)%Z).
-  - rewrite bind_ok. split.
-    + intros (ls & H & _) _. eapply colls_lines_ok. exists ls. exact H.
-    + intros H. specialize (H eq_refl). eapply colls_lines_ok in H. destruct H as (ls & H). exists ls. split; [exact H|]. eexists. reflexivity.
-  - split; [intros _ H; discriminate|intros _; eexists; reflexivity].
-Qed.
-Lemma render_snippet_ok c ind f : (exists r, render_snippet c ind f = Ok r) <-> tok_ok (f_content f).
-Proof.
-  unfold render_snippet. rewrite bind_ok, <- (snippet_of_ok c (f_content f) (f_lineno f) 4 4). split.
-  - intros (ls & H & _). exists ls. exact H.
-  - intros (ls & H). exists ls. split; [exact H|]. eexists. reflexivity.
-Qed.
-Theorem render_exception_ok c ind x : (exists ls, render_exception c ind x = Ok ls) <-> render_cond c x.
-Proof.
-  unfold render_exception, render_cond. fold dflt_frame. destruct (x_frames x) as [|f0 fs] eqn:EF.
-  - split; [intros _ H; congruence|intros _; eexists; reflexivity].
-  - rewrite bind_ok. split.
-    + intros (tr & HT & HS) _. apply bind_ok in HS. destruct HS as (sn & HS & _). split.
-      * eapply render_snippet_ok. exists sn. exact HS.
-      * eapply render_trace_ok. exists tr. exact HT.
-    + intros H. destruct (H ltac:(discriminate)) as [H1 H2]. eapply render_trace_ok in H2. destruct H2 as (tr & HT).
-      exists tr. split; [exact HT|]. eapply render_snippet_ok in H1. destruct H1 as (sn & HS). rewrite HS. cbn [bind]. eexists. reflexivity.
-Qed.
-(* 4b. the full report exists exactly when tokenize succeeded where it is needed; the simple one always *)
-Theorem render_lines_ok c ind x : (exists ls, render_lines c false ind x = Ok ls) <-> render_cond c x.
-Proof. unfold render_lines. apply render_exception_ok. Qed.
 Theorem render_lines_simple_ok c ind x : exists ls, render_lines c true ind x = Ok ls.
-Proof. eexists. reflexivity. Qed.
+Proof. apply render_lines_total. Qed.
 
-(* 4c. undecorated outputs: render succeeds under exactly that condition; decorated: under it, when no line holds ESC *)
+(* 4b. an output that does not decorate (plain formatter, or formatting off): render succeeds - for EVERY exception
+   case, no hypothesis on it at all *)
+Theorem render_never_fails_plain sty c simple o x :
+  out_ok sty o -> resolvable sty st_error -> resolvable sty st_b -> decorated o = false ->
+  exists bytes, render c simple o x = Ok bytes.
+Proof.
+  intros Ho Herr Hb Hd. destruct (render_lines_total c simple (o_indent o) x) as (ls & HL).
+  apply (render_never_fails_l sty c simple o x ls Ho Herr Hb HL). rewrite Hd. discriminate.
+Qed.
+(* 4c. any output: render succeeds when - if the output decorates - no line holds ESC *)
 Theorem render_never_fails sty c simple o x :
   out_ok sty o -> resolvable sty st_error -> resolvable sty st_b ->
-  (simple = false -> render_cond c x) ->
   (decorated o = true -> forall ls, render_lines c simple (o_indent o) x = Ok ls -> Forall (fun wl => no_esc (snd wl)) ls) ->
   exists bytes, render c simple o x = Ok bytes.
 Proof.
-  intros Ho Herr Hb Hc Hne.
-  assert (exists ls, render_lines c simple (o_indent o) x = Ok ls) as (ls & HL).
-  { destruct simple; [apply render_lines_simple_ok|apply render_lines_ok, Hc; reflexivity]. }
+  intros Ho Herr Hb Hne. destruct (render_lines_total c simple (o_indent o) x) as (ls & HL).
   apply (render_never_fails_l sty c simple o x ls Ho Herr Hb HL). intros Hd. apply (Hne Hd ls HL).
 Qed.
-(* and conversely a full render that succeeds had that condition *)
-Theorem render_ok_cond c o x bytes : render c false o x = Ok bytes -> render_cond c x.
+(* the renderer's result is never an error of render_lines: a failure of render, if any, is a failure of writing *)
+Theorem render_err_is_write_err c simple o x e :
+  render c simple o x = Err e -> exists ls, render_lines c simple (o_indent o) x = Ok ls /\ write_lines o ls = Err e.
 Proof.
-  unfold render. intros H. destruct (render_lines c false (o_indent o) x) as [ls|e] eqn:E; cbn [bind] in H; [|discriminate].
-  apply (render_lines_ok c (o_indent o) x). exists ls. exact E.
+  unfold render. destruct (render_lines_total c simple (o_indent o) x) as (ls & ->). cbn [bind]. intros H.
+  exists ls. split; [reflexivity|]. destruct (write_lines o ls) as [o'|e']; cbn [bind] in H; [discriminate|congruence].
 Qed.
 
 (* ------------------------------------------------------------------ 5. what the undecorated bytes say *)
@@ -986,6 +914,59 @@ Proof.
 Qed.
 
 (* full mode: the stack trace (if any), a blank line, the class name, a blank line, the message block, the snippet *)
+(* from the pieces of the trace lines and of the snippet lines *)
+Theorem full_bytes_of_pieces sty c o x tr_p sn_p :
+  out_ok sty o -> resolvable sty st_error -> resolvable sty st_b -> decorated o = false -> (0 <= o_indent o)%Z ->
+  x_frames x <> [] ->
+  let ind := (o_indent o + 2)%Z in
+  render_trace c ind (x_frames x) = Ok (map pline_w tr_p) -> Forall (fun p => pieces_ok sty (snd p)) tr_p ->
+  render_snippet c ind (last (x_frames x) dflt_frame) = Ok (map pline_w sn_p) -> Forall (fun p => pieces_ok sty (snd p)) sn_p ->
+  render c false o x
+  = Ok (o_buf o ++ flat_map shown_line tr_p
+          ++ [NL] ++ spaces ind ++ shown (ind_text ind (x_name x)) ++ [NL]
+          ++ [NL] ++ spaces ind ++ shown (ind_text ind (msg_text (x_msg x))) ++ [NL]
+          ++ flat_map shown_line sn_p).
+Proof.
+  intros Ho Herr Hb Hd Hi Hne ind ET Htr ES Hsn.
+  set (mid := [(ind, []); (ind, name_pieces x); (ind, []); (ind, msg_pieces x)] : list pline).
+  assert (render_lines c false (o_indent o) x = Ok (map pline_w (tr_p ++ mid ++ sn_p))) as HL.
+  { unfold render_lines. fold ind. unfold render_exception. fold dflt_frame.
+    destruct (x_frames x) as [|f0 fs] eqn:EF; [congruence|]. rewrite ET, ES. cbn [bind].
+    assert (map pline_w mid = render_line ind (name_line x) true 0 ++ [(ind, [])] ++ render_line ind (msg_line x) false 0) as Emid
+      by (rewrite name_line_pieces, msg_line_pieces; reflexivity).
+    rewrite !map_app, Emid. unfold name_line, msg_line. rewrite <- ?app_assoc. reflexivity. }
+  unfold render. rewrite HL. cbn [bind].
+  destruct (write_lines_pieces sty (tr_p ++ mid ++ sn_p) o Ho) as (o' & HW & _ & _ & _ & HB).
+  { apply Forall_app. split; [exact Htr|]. apply Forall_app. split; [|exact Hsn]. unfold mid.
+    constructor; [constructor|]. constructor; [apply name_pieces_ok, Herr|]. constructor; [constructor|].
+    constructor; [apply msg_pieces_ok, Hb|constructor]. }
+  { rewrite Hd. discriminate. }
+  rewrite HW. cbn [bind]. rewrite (HB Hd), !flat_map_app. unfold mid. cbn [flat_map].
+  unfold name_pieces, msg_pieces. rewrite !shown_line_blank, !shown_line_named.
+  destruct (Z.ltb_spec 0 ind) as [_|Hle]; [|unfold ind in Hle; lia]. rewrite <- ?app_assoc. cbn [app]. rewrite <- ?app_assoc. reflexivity.
+Qed.
+(* the full report ALWAYS is these bytes on an undecorated output: no hypothesis on the exception case but that it has frames *)
+Theorem full_bytes_total sty c o x :
+  out_ok sty o -> resolvable sty st_error -> resolvable sty st_b -> decorated o = false -> (0 <= o_indent o)%Z ->
+  x_frames x <> [] ->
+  let ind := (o_indent o + 2)%Z in
+  exists tr_p sn_p,
+    render_trace c ind (x_frames x) = Ok (map pline_w tr_p) /\
+    render_snippet c ind (last (x_frames x) dflt_frame) = Ok (map pline_w sn_p) /\
+    render c false o x
+    = Ok (o_buf o ++ flat_map shown_line tr_p
+            ++ [NL] ++ spaces ind ++ shown (ind_text ind (x_name x)) ++ [NL]
+            ++ [NL] ++ spaces ind ++ shown (ind_text ind (msg_text (x_msg x))) ++ [NL]
+            ++ flat_map shown_line sn_p).
+Proof.
+  intros Ho Herr Hb Hd Hi Hne ind.
+  destruct (render_trace_total c ind (x_frames x)) as (tr & ET).
+  destruct (render_snippet_total c ind (last (x_frames x) dflt_frame)) as (sn & ES).
+  destruct (good_lines_pieces sty tr (good_render_trace sty Hb c ind _ tr ET)) as (tr_p & Etr & Htr).
+  destruct (good_lines_pieces sty sn (good_render_snippet sty Hb c ind _ sn ES)) as (sn_p & Esn & Hsn).
+  exists tr_p, sn_p. subst tr sn. split; [exact ET|]. split; [exact ES|].
+  apply (full_bytes_of_pieces sty c o x tr_p sn_p Ho Herr Hb Hd Hi Hne ET Htr ES Hsn).
+Qed.
 Theorem full_bytes sty c o x bytes :
   out_ok sty o -> resolvable sty st_error -> resolvable sty st_b -> decorated o = false -> (0 <= o_indent o)%Z ->
   x_frames x <> [] -> render c false o x = Ok bytes ->
@@ -998,28 +979,46 @@ Theorem full_bytes sty c o x bytes :
               ++ [NL] ++ spaces ind ++ shown (ind_text ind (msg_text (x_msg x))) ++ [NL]
               ++ flat_map shown_line sn_p.
 Proof.
-  intros Ho Herr Hb Hd Hi Hne HR ind. unfold render in HR.
-  destruct (render_lines c false (o_indent o) x) as [ls|e] eqn:HL; cbn [bind] in HR; [|discriminate].
-  unfold render_lines in HL. fold ind in HL. unfold render_exception in HL. fold dflt_frame in HL.
-  destruct (x_frames x) as [|f0 fs] eqn:EF; [congruence|]. rewrite <- EF in *.
-  destruct (render_trace c ind (x_frames x)) as [tr|e] eqn:ET; cbn [bind] in HL; [|discriminate].
-  destruct (render_snippet c ind (last (x_frames x) dflt_frame)) as [sn|e] eqn:ES; cbn [bind] in HL; [|discriminate].
-  destruct (good_lines_pieces sty tr (good_render_trace sty Hb c ind _ tr ET)) as (tr_p & Etr & Htr).
-  destruct (good_lines_pieces sty sn (good_render_snippet sty Hb c ind _ sn ES)) as (sn_p & Esn & Hsn).
-  exists tr_p, sn_p. subst tr sn. split; [reflexivity|]. split; [reflexivity|].
-  set (mid := [(ind, []); (ind, name_pieces x); (ind, []); (ind, msg_pieces x)] : list pline).
-  assert (ls = map pline_w (tr_p ++ mid ++ sn_p)) as El.
-  { assert (map pline_w mid = render_line ind (name_line x) true 0 ++ [(ind, [])] ++ render_line ind (msg_line x) false 0) as Emid
-      by (rewrite name_line_pieces, msg_line_pieces; reflexivity).
-    rewrite !map_app, Emid. injection HL as <-. rewrite <- ?app_assoc. reflexivity. }
-  destruct (write_lines_pieces sty (tr_p ++ mid ++ sn_p) o Ho) as (o' & HW & _ & _ & _ & HB).
-  { apply Forall_app. split; [exact Htr|]. apply Forall_app. split; [|exact Hsn]. unfold mid.
-    constructor; [constructor|]. constructor; [apply name_pieces_ok, Herr|]. constructor; [constructor|].
-    constructor; [apply msg_pieces_ok, Hb|constructor]. }
-  { rewrite Hd. discriminate. }
-  rewrite El, HW in HR. cbn [bind] in HR. injection HR as <-. rewrite (HB Hd), !flat_map_app. unfold mid. cbn [flat_map].
-  unfold name_pieces, msg_pieces. rewrite !shown_line_blank, !shown_line_named.
-  destruct (Z.ltb_spec 0 ind) as [_|Hle]; [|unfold ind in Hle; lia]. rewrite <- ?app_assoc. cbn [app]. rewrite <- ?app_assoc. reflexivity.
+  intros Ho Herr Hb Hd Hi Hne HR ind.
+  destruct (full_bytes_total sty c o x Ho Herr Hb Hd Hi Hne) as (tr_p & sn_p & ET & ES & HB). fold ind in ET, ES, HB.
+  exists tr_p, sn_p. split; [exact ET|]. split; [exact ES|]. rewrite HB in HR. injection HR as <-. reflexivity.
+Qed.
+(* the source of the failing frame cannot be read or tokenized: after the message block the report has the blank line
+   and the location line  "at file:line in function"  - and no snippet lines *)
+Definition at_pieces (c : tcfg) (f : frame) : list piece := PRaw [97;116;32]%N :: loc_pieces c st_green f.
+Lemma at_line_pieces c f : s_at ++ location c st_green f = line_str (at_pieces c f).
+Proof.
+  rewrite at_line_eq. unfold at_pieces. change (line_str (PRaw [97;116;32]%N :: loc_pieces c st_green f))
+    with ([97;116;32]%N ++ line_str (loc_pieces c st_green f)). now rewrite <- location_pieces.
+Qed.
+Lemma at_pieces_ok sty c f : resolvable sty st_b -> pieces_ok sty (at_pieces c f).
+Proof. intros Hb. constructor; [cbn [piece_ok]; safe_by_compute|]. apply (loc_pieces_ok sty Hb). inline_in. Qed.
+Lemma render_snippet_unreadable_pieces c ind f : ~ tok_ok (f_content f) ->
+  render_snippet c ind f = Ok (map pline_w [(ind, []); (ind, at_pieces c f)]).
+Proof.
+  intros H. rewrite (render_snippet_unreadable c ind f H). unfold render_line, pline_w. cbn [map fst snd app repeat Z.to_nat].
+  now rewrite at_line_pieces.
+Qed.
+Theorem full_bytes_unreadable sty c o x :
+  out_ok sty o -> resolvable sty st_error -> resolvable sty st_b -> decorated o = false -> (0 <= o_indent o)%Z ->
+  x_frames x <> [] -> ~ tok_ok (f_content (last (x_frames x) dflt_frame)) ->
+  let ind := (o_indent o + 2)%Z in
+  exists tr_p,
+    render_trace c ind (x_frames x) = Ok (map pline_w tr_p) /\
+    render c false o x
+    = Ok (o_buf o ++ flat_map shown_line tr_p
+            ++ [NL] ++ spaces ind ++ shown (ind_text ind (x_name x)) ++ [NL]
+            ++ [NL] ++ spaces ind ++ shown (ind_text ind (msg_text (x_msg x))) ++ [NL]
+            ++ [NL] ++ shown_line (ind, at_pieces c (last (x_frames x) dflt_frame))).
+Proof.
+  intros Ho Herr Hb Hd Hi Hne Hun ind.
+  destruct (render_trace_total c ind (x_frames x)) as (tr & ET).
+  destruct (good_lines_pieces sty tr (good_render_trace sty Hb c ind _ tr ET)) as (tr_p & Etr & Htr). subst tr.
+  exists tr_p. split; [exact ET|].
+  rewrite (full_bytes_of_pieces sty c o x tr_p [(ind, []); (ind, at_pieces c (last (x_frames x) dflt_frame))] Ho Herr Hb Hd Hi Hne ET Htr).
+  - cbn [flat_map]. rewrite shown_line_blank, app_nil_r. reflexivity.
+  - apply render_snippet_unreadable_pieces, Hun.
+  - constructor; [constructor|]. constructor; [apply at_pieces_ok, Hb|constructor].
 Qed.
 (* class names hold no line break: the class-name line is the name itself, between two blank lines *)
 Corollary full_bytes_name sty c o x bytes :
@@ -1196,7 +1195,7 @@ Notation new := (fun wl : wline => no_esc (snd wl)).
 Lemma snippet_of_ne content line before after ls :
   tokres_ne content -> snippet_of c content line before after = Ok ls -> Forall no_esc ls.
 Proof.
-  unfold snippet_of. destruct content as [toks| |]; intros HT H; try discriminate. injection H as <-.
+  unfold snippet_of. destruct content as [toks| |]; intros HT H; injection H as <-; [|constructor|constructor].
   unfold code_snippet, line_numbers. apply Forall_firstn, Forall_skipn, number_from_ne, split_to_lines_ne, HT.
 Qed.
 Lemma rel_path_ne p : no_esc p -> no_esc (rel_path c p).
@@ -1217,19 +1216,22 @@ Proof.
   intros Hl. unfold render_line. apply Forall_app. split; [destruct nl; constructor; [constructor|constructor]|].
   constructor; [|constructor]. cbn [snd]. apply ne_app; [apply ne_repeat32|exact Hl].
 Qed.
+Lemma frame_text_ne f : frame_ne f -> no_esc (frame_text f).
+Proof.
+  intros (_ & _ & HL & _ & HT). assert (no_esc (plain_code f)) as HP by (apply ne_styled, ne_strip, HL).
+  unfold frame_text. destruct (f_linetoks f) as [toks| |]; try exact HP.
+  pose proof (split_to_lines_ne toks HT) as HG. destruct (split_to_lines toks) as [|l r]; [exact HP|]. inversion HG; subst. assumption.
+Qed.
 Lemma frame_code_ne ind w f ls : frame_ne f -> frame_code c ind w f = Ok ls -> Forall new ls.
 Proof.
-  intros (_ & _ & HL & HC & HT). unfold frame_code. destruct (t_debug c).
-  - destruct (snippet_of c (f_content f) (f_lineno f) 2 2) as [sn|e] eqn:E; cbn [bind]; [|discriminate]. intros H. injection H as <-.
+  intros Hf. pose proof Hf as (_ & _ & _ & HC & _). destruct (t_debug c) eqn:ED.
+  - destruct (frame_code_debug c ind w f ED) as (sn & E & ->). intros H.
+    assert (ls = flat_map (fun l => render_line ind (rjust [32%N] w ++ l) false 1) sn) as -> by (injection H; intros; symmetry; assumption).
     apply Forall_flat_map. eapply Forall_impl; [|apply (snippet_of_ne _ _ _ _ _ HC E)].
     intros l Hl. apply render_line_ne. apply ne_app; [apply ne_rjust; ne_compute|exact Hl].
-  - intros H.
-    assert (exists code, no_esc code /\ ls = render_line ind (rjust [32%N] w ++ [32; 32]%N ++ code) false 0) as (code & Hc & ->).
-    { destruct (f_linetoks f) as [toks| |]; cbn [bind] in H; try discriminate.
-      - pose proof (split_to_lines_ne toks HT) as HG. destruct (split_to_lines toks) as [|l r]; cbn [bind] in H; [discriminate|].
-        injection H as <-. inversion HG; subst. eexists. split; [eassumption|reflexivity].
-      - injection H as <-. eexists. split; [apply ne_styled, ne_strip, HL|reflexivity]. }
-    apply render_line_ne. apply ne_app; [apply ne_rjust; ne_compute|]. apply ne_app; [ne_compute|exact Hc].
+  - rewrite (frame_code_verbose c ind w f ED). intros H.
+    assert (ls = render_line ind (rjust [32%N] w ++ [32; 32]%N ++ frame_text f) false 0) as -> by (injection H; intros; symmetry; assumption).
+    apply render_line_ne. apply ne_app; [apply ne_rjust; ne_compute|]. apply ne_app; [ne_compute|apply frame_text_ne, Hf].
 Qed.
 Lemma frame_line_ne w f i : frame_ne f -> no_esc (frame_line c w f i).
 Proof.
@@ -1311,15 +1313,27 @@ End LinesNoEsc.
 Theorem lines_noesc c simple ind x ls : inputs_ne c x -> render_lines c simple ind x = Ok ls -> Forall (fun wl => no_esc (snd wl)) ls.
 Proof. intros (H1 & H2 & H3 & H4). apply (lines_noesc_c c H1 simple ind x ls H2 H3 H4). Qed.
 
-(* 4e. render fails only if tokenize does - decorated or not, stated on the inputs *)
-Theorem render_never_fails_inputs sty c simple o x :
+(* 4e. THE statement, on the inputs.  For every exception case x (class name, message, frames - whatever tokenize did on
+   their sources), configuration c (verbosity, UTF-8, directories), report mode and output o such that
+     - o is an ordinary output (not a section) with an ANSI or plain formatter whose style stack is empty (out_ok),
+     - its style table resolves "error" and "b",
+     - if o decorates (ANSI formatter, formatting on): no ESC in the class name, the message, the file and function
+       names, the frame lines and the token texts, and the path separator is not ESC (inputs_ne),
+   ExceptionTrace.render returns: it writes its bytes and raises nothing. *)
+Theorem render_never_fails_unconditionally sty c simple o x :
   out_ok sty o -> resolvable sty st_error -> resolvable sty st_b ->
-  (simple = false -> render_cond c x) -> (decorated o = true -> inputs_ne c x) ->
+  (decorated o = true -> inputs_ne c x) ->
   exists bytes, render c simple o x = Ok bytes.
 Proof.
-  intros Ho Herr Hb Hc Hne. apply (render_never_fails sty c simple o x Ho Herr Hb Hc).
+  intros Ho Herr Hb Hne. apply (render_never_fails sty c simple o x Ho Herr Hb).
   intros Hd ls HL. apply (lines_noesc c simple _ x ls (Hne Hd) HL).
 Qed.
+(* the earlier name (it had the hypothesis "tokenize succeeded where the full report needs it": no longer needed) *)
+Corollary render_never_fails_inputs sty c simple o x :
+  out_ok sty o -> resolvable sty st_error -> resolvable sty st_b ->
+  (decorated o = true -> inputs_ne c x) ->
+  exists bytes, render c simple o x = Ok bytes.
+Proof. exact (render_never_fails_unconditionally sty c simple o x). Qed.
 
 (* ------------------------------------------------------------------ 4f. the two registered styles *)
 (* "error" is one of pastel's own styles: every formatter clikit builds (ANSI or plain) resolves it, whatever the style
@@ -1397,19 +1411,12 @@ Example ex_indent_nl : (* a text with line breaks between two tags:  <b>a NL NL 
   indent_text 2 (line_str [PNamed st_b [97;10;10;98;10]%N]) = line_str [PRaw [32;32]%N; PNamed st_b [97;10;10;32;32;98;10;32;32]%N].
 Proof. vm_compute. reflexivity. Qed.
 
-(* 3 / 4: the condition of render_lines_ok holds, render does not fail - plain and decorated *)
-Example ex_cond v : render_cond (demo_cfg v) (demo_x [demo_frame; demo_frame]).
-Proof.
-  intros _. split; [eexists; reflexivity|]. intros _. repeat constructor; unfold code_ok; cbn; discriminate.
-Qed.
-Example ex_never_fails_plain v simple : exists bytes, render (demo_cfg v) simple (demo_out FPlain false 0) (demo_x [demo_frame; demo_frame]) = Ok bytes.
-Proof.
-  apply (render_never_fails demo_sty2); [apply demo_out_ok; discriminate|apply demo_error|apply demo_b|intros _; apply ex_cond|].
-  intros H. vm_compute in H. discriminate.
-Qed.
+(* 3 / 4: render does not fail - plain (whatever the frames) and decorated *)
+Example ex_never_fails_plain v simple fs : exists bytes, render (demo_cfg v) simple (demo_out FPlain false 0) (demo_x fs) = Ok bytes.
+Proof. apply (render_never_fails_plain demo_sty2); [apply demo_out_ok; discriminate|apply demo_error|apply demo_b|reflexivity]. Qed.
 Example ex_never_fails_ansi : exists bytes, render (demo_cfg true) false (demo_out (FAnsi false) true 0) (demo_x [demo_frame; demo_frame]) = Ok bytes.
 Proof.
-  apply (render_never_fails demo_sty2); [apply demo_out_ok; discriminate|apply demo_error|apply demo_b|intros _; apply ex_cond|].
+  apply (render_never_fails demo_sty2); [apply demo_out_ok; discriminate|apply demo_error|apply demo_b|].
   intros _ ls H. vm_compute in H. injection H as <-. repeat constructor; discriminate.
 Qed.
 (* the same from the inputs: no ESC in the names, the message and the source *)
@@ -1421,18 +1428,78 @@ Qed.
 Example ex_never_fails_ansi_inputs simple :
   exists bytes, render (demo_cfg true) simple (demo_out (FAnsi false) true 4) (demo_x [demo_frame; demo_frame]) = Ok bytes.
 Proof.
-  apply (render_never_fails_inputs demo_sty2); [apply demo_out_ok; discriminate|apply demo_error|apply demo_b|intros _; apply ex_cond|].
+  apply (render_never_fails_unconditionally demo_sty2); [apply demo_out_ok; discriminate|apply demo_error|apply demo_b|].
   intros _. apply ex_inputs_ne.
 Qed.
-(* a file that tokenize rejects: the condition fails and so does render (tokenize's exception escapes) *)
+(* a file that tokenize rejects (TokenError: the file was edited after it was loaded) or that cannot even be read
+   (another exception: UnicodeDecodeError on a latin-1 file) - and the same for the frame's own line: the report is
+   produced, without snippet lines; the frame's line is shown plain *)
 Definition bad_frame : frame :=
   {| f_file := [97;46;112;121]%N; f_ignored := false; f_lineno := 1; f_func := [102%N]; f_line := [120%N];
      f_content := TokError; f_linetoks := TokError |}.
-Example ex_cond_fails : ~ render_cond (demo_cfg false) (demo_x [bad_frame]).
-Proof. intros H. destruct (H ltac:(discriminate)) as [(toks & E) _]. discriminate. Qed.
-Example ex_render_fails : render (demo_cfg false) false (demo_out FPlain false 0) (demo_x [bad_frame]) = Err (Other 10).
+Definition bad_frame2 : frame :=
+  {| f_file := [98;46;112;121]%N; f_ignored := false; f_lineno := 7; f_func := [103%N]; f_line := [32;32;121;32;60;32;49;32]%N;
+     f_content := TokOtherExc; f_linetoks := TokOtherExc |}.
+Example ex_bad_not_ok : ~ tok_ok (f_content bad_frame) /\ ~ tok_ok (f_content bad_frame2).
+Proof. split; intros (toks & H); discriminate. Qed.
+(* the part every full report of demo_x has: blank, class name, blank, message *)
+Definition ex_head : str := [NL] ++ [32;32]%N ++ demo_name ++ [NL] ++ [NL] ++ [32;32]%N ++ demo_msg ++ [32%N] ++ [NL].
+(* the write_line calls: blank, class name, blank, message, blank, "at a.py:1 in f" - and that is all: no snippet lines *)
+Example ex_unreadable_lines :
+  render_lines (demo_cfg false) false 0 (demo_x [bad_frame])
+  = Ok [(2, []); (2, name_line (demo_x [])); (2, []); (2, msg_line (demo_x [])); (2, []);
+        (2, s_at ++ location (demo_cfg false) st_green bad_frame)]%Z.
 Proof. vm_compute. reflexivity. Qed.
-
+Example ex_unreadable_vm :          (* TokenError *)
+  render (demo_cfg false) false (demo_out FPlain false 0) (demo_x [bad_frame])
+  = Ok (ex_head ++ [10;32;32;97;116;32;97;46;112;121;58;49;32;105;110;32;102;10]%N).                 (*   at a.py:1 in f *)
+Proof. vm_compute. reflexivity. Qed.
+Example ex_unreadable_other_vm :    (* another exception: the file cannot be read *)
+  render (demo_cfg false) false (demo_out FPlain false 0) (demo_x [bad_frame2])
+  = Ok (ex_head ++ [10;32;32;97;116;32;98;46;112;121;58;55;32;105;110;32;103;10]%N).                 (*   at b.py:7 in g *)
+Proof. vm_compute. reflexivity. Qed.
+(* the same through the theorem *)
+Example ex_unreadable_thm :
+  render (demo_cfg false) false (demo_out FPlain false 0) (demo_x [bad_frame])
+  = Ok (ex_head ++ [NL] ++ shown_line (2%Z, at_pieces (demo_cfg false) bad_frame)).
+Proof.
+  destruct (full_bytes_unreadable demo_sty2 (demo_cfg false) (demo_out FPlain false 0) (demo_x [bad_frame])
+              (demo_out_ok FPlain false 0 ltac:(discriminate)) demo_error demo_b eq_refl ltac:(cbn; lia) ltac:(discriminate) (proj1 ex_bad_not_ok))
+    as (tr_p & ET & HR).
+  assert (tr_p = []) as ->.
+  { assert (render_trace (demo_cfg false) (o_indent (demo_out FPlain false 0) + 2) (x_frames (demo_x [bad_frame])) = Ok []) as E0
+      by (vm_compute; reflexivity).
+    rewrite E0 in ET. destruct tr_p; [reflexivity|cbn [map] in ET; discriminate ET]. }
+  rewrite HR. vm_compute. reflexivity.
+Qed.
+(* -v, three frames: under the frame of b.py its line as it is (stripped, the "<" shown), no snippet at the end *)
+Example ex_unreadable_verbose_vm :
+  render (demo_cfg true) false (demo_out FPlain false 0) (demo_x [bad_frame2; demo_frame; bad_frame])
+  = Ok ([10;32;32;83;116;97;99;107;32;116;114;97;99;101;58;10]%N                                      (*   Stack trace: *)
+        ++ [10;32;32;50;32;32;98;46;112;121;58;55;32;105;110;32;103;10]%N                             (*   2  b.py:7 in g *)
+        ++ [32;32;32;32;32;121;32;60;32;49;10]%N                                                      (*      y < 1 *)
+        ++ [10;32;32;49;32;32;97;46;112;121;58;49;32;105;110;32;60;102;62;10]%N                       (*   1  a.py:1 in <f> *)
+        ++ [32;32;32;32;32;120;10]%N                                                                  (*      x *)
+        ++ ex_head ++ [10;32;32;97;116;32;97;46;112;121;58;49;32;105;110;32;102;10]%N).               (*   at a.py:1 in f *)
+Proof. vm_compute. reflexivity. Qed.
+(* -vvv: the snippet under the frame whose file tokenizes, nothing under the frame whose file cannot be read *)
+Definition demo_cfg_debug : tcfg := {| t_verbose := true; t_debug := true; t_utf8 := false; t_cwd := []; t_home := []; t_sep := 47%N |}.
+Example ex_unreadable_debug_vm :
+  render demo_cfg_debug false (demo_out FPlain false 0) (demo_x [bad_frame2; demo_frame; bad_frame])
+  = Ok ([10;32;32;83;116;97;99;107;32;116;114;97;99;101;58;10]%N                                      (*   Stack trace: *)
+        ++ [10;32;32;50;32;32;98;46;112;121;58;55;32;105;110;32;103;10]%N                             (*   2  b.py:7 in g *)
+        ++ [10;32;32;49;32;32;97;46;112;121;58;49;32;105;110;32;60;102;62;10]%N                       (*   1  a.py:1 in <f> *)
+        ++ [32;32;32;32;62;32;32;32;49;124;32;120;10]%N                                               (*     >   1| x *)
+        ++ ex_head ++ [10;32;32;97;116;32;97;46;112;121;58;49;32;105;110;32;102;10]%N).               (*   at a.py:1 in f *)
+Proof. vm_compute. reflexivity. Qed.
+(* decorated as well: the same text under the escape codes *)
+Example ex_unreadable_ansi_vm :
+  match render (demo_cfg true) false (demo_out (FAnsi false) true 0) (demo_x [bad_frame2; demo_frame; bad_frame]),
+        render (demo_cfg true) false (demo_out FPlain false 0) (demo_x [bad_frame2; demo_frame; bad_frame]) with
+  | Ok b, Ok p => strip_sgr b = p /\ b <> p
+  | _, _ => False
+  end.
+Proof. vm_compute. split; [reflexivity|discriminate]. Qed.
 (* 5: the bytes.  Simple mode: the message with a blank after its trailing backslash *)
 Example ex_simple : render (demo_cfg false) true (demo_out FPlain false 0) (demo_x [demo_frame]) = Ok (demo_msg ++ [32; NL]%N).
 Proof. rewrite (simple_bytes_0 demo_sty2); [reflexivity|apply demo_out_ok; discriminate|apply demo_error|reflexivity|cbn; lia]. Qed.
@@ -1448,7 +1515,6 @@ Example ex_full : exists pre post, (pre = [] \/ exists pre', pre = pre' ++ [NL])
   render (demo_cfg false) false (demo_out FPlain false 0) (demo_x [demo_frame])
   = Ok (pre ++ [NL] ++ [32;32]%N ++ demo_name ++ [NL] ++ [NL] ++ [32;32]%N ++ demo_msg ++ [32%N] ++ [NL] ++ post).
 Proof.
-  destruct (ex_never_fails_plain false false) as (bytes & _).
   destruct (render (demo_cfg false) false (demo_out FPlain false 0) (demo_x [demo_frame])) as [b|e] eqn:E; [|vm_compute in E; discriminate].
   assert (no_nl demo_name) as Hn by (repeat constructor; discriminate).
   assert (no_nl demo_msg) as Hm by (repeat constructor; discriminate).
@@ -1469,12 +1535,16 @@ Print Assumptions render_lines_good.
 Print Assumptions indent_good_ne.
 Print Assumptions write_pieces.
 Print Assumptions write_lines_good.
+Print Assumptions render_never_fails_plain.
 Print Assumptions render_never_fails.
-Print Assumptions render_lines_ok.
+Print Assumptions render_err_is_write_err.
 Print Assumptions lines_noesc.
-Print Assumptions render_never_fails_inputs.
+Print Assumptions render_never_fails_unconditionally.
 Print Assumptions new_formatter_error.
 Print Assumptions render_plain_bytes_l.
 Print Assumptions simple_bytes.
+Print Assumptions full_bytes_of_pieces.
+Print Assumptions full_bytes_total.
 Print Assumptions full_bytes.
+Print Assumptions full_bytes_unreadable.
 Print Assumptions full_bytes_one_line.
